@@ -592,12 +592,12 @@ func c13DenseMain(t *testing.T, res *vx.Result) {
 	type B = c13Bound
 	var jobs []c13Job
 	if vx.Thorough() {
-		jobs = append(jobs, c13DenseJobs[c13Bits](gk1, []B{{1, 1, all}, {2, 4, all}, {3, 9, all}, {4, 8, plain}, {5, 4, plain}}, res)...)
+		jobs = append(jobs, c13DenseJobs[c13Bits](gk1, []B{{1, 1, all}, {2, 4, all}, {3, 9, all}, {4, 7, plain}, {5, 4, plain}}, res)...)
 		jobs = append(jobs, c13DenseJobs[c13Flat](cp, []B{{1, 1, all}, {2, 4, all}, {3, 9, all}, {4, 6, plain}}, res)...)
 		jobs = append(jobs, c13DenseJobs[c13Bits](gk2, []B{{1, 1, all}, {2, 4, all}, {3, 6, plain}, {4, 3, plain}}, res)...)
 		jobs = append(jobs, c13DenseJobs[lattice](nl, []B{{1, 1, all}, {2, 4, all}, {3, 6, plain}, {4, 1, plain}}, res)...)
 		jobs = append(jobs, c13DenseJobs[c13NilMapL](nm, []B{{1, 1, all}, {2, 4, all}, {3, 6, plain}, {4, 1, plain}}, res)...)
-		c13DenseBound = "dense: genkill1 <=3 nodes all graphs x4 shapes, 4 nodes <=8 edges, 5 nodes <=4 edges; constprop <=3 nodes all graphs x4 shapes, 4 nodes <=6 edges; genkill2 <=2 nodes all x4 shapes, 3 nodes <=6 edges, 4 nodes <=3 edges; nilness and nilness-densemap <=2 nodes all x4 shapes, 3 nodes <=6 edges, 4 nodes <=1 edge; every entry fact (and 'absent') at every zero-predecessor node"
+		c13DenseBound = "dense: genkill1 <=3 nodes all graphs x4 shapes, 4 nodes <=7 edges, 5 nodes <=4 edges; constprop <=3 nodes all graphs x4 shapes, 4 nodes <=6 edges; genkill2 <=2 nodes all x4 shapes, 3 nodes <=6 edges, 4 nodes <=3 edges; nilness and nilness-densemap <=2 nodes all x4 shapes, 3 nodes <=6 edges, 4 nodes <=1 edge; every entry fact (and 'absent') at every zero-predecessor node"
 	} else {
 		jobs = append(jobs, c13DenseJobs[c13Bits](gk1, []B{{1, 1, all}, {2, 4, all}, {3, 9, all}, {4, 6, plain}}, res)...)
 		jobs = append(jobs, c13DenseJobs[c13Flat](cp, []B{{1, 1, all}, {2, 4, all}, {3, 9, plain}, {4, 4, plain}}, res)...)
